@@ -466,7 +466,7 @@ def main():
     per_level = [()] + [(d,) for d in decl_shapes] + ([(a, b) for a in decl_shapes for b in decl_shapes if a[0] != b[0] or a[0] == 1] if thorough else [((None, 1), (1, 1)), ((1, 1), (1, 1))])
     depth = 3 if thorough else 2
     for d in range(1, depth + 1):
-        pools = [per_level if (thorough and d <= 2) or not thorough else [()] + [(x,) for x in decl_shapes]] * d
+        pools = [per_level if (thorough and d <= 2) or not thorough else [()] + [(x,) for x in decl_shapes] + [((None, 1), (1, 1)), ((1, 1), (1, 1)), ((None, 0), (1, 1))]] * d
         for lv in itertools.product(*pools):
             jobs.append(("scope", lv, t))
     rep.bounds = {"scope": "chains of 1..%d elements below the document, 0-2 declarations per element, prefix none or one symbolic character, URI empty or one symbolic character" % depth,
